@@ -24,10 +24,13 @@ PoseCls  == {"SO2", "SE2", "SO3", "SE3"}
 TwistCls == {"Twist2", "Twist3"}
 \* "UnitQuaternion(R)": a unit quaternion constructed from a 3x3 ROTATION MATRIX - the items are matrices and have the
 \* kinds of SO3 items (the constructor must validate the matrix exactly as SO3 does)
-Cls      == PoseCls \cup TwistCls \cup {"UnitQuaternion", "UnitQuaternion(R)"}
+\* "SE3.SO3(R)": the class method that lifts a rotation to a rigid motion - the item is a 3x3 rotation matrix (SO3 kinds)
+\* or something of the wrong size (a 2x2 rotation, a 4x4 homogeneous rotation), which must be rejected as well
+Cls      == PoseCls \cup TwistCls \cup {"UnitQuaternion", "UnitQuaternion(R)", "SE3.SO3(R)"}
 
 FarKinds(c) ==
   CASE c \in {"SO2", "SO3", "UnitQuaternion(R)"} -> {"nonorth", "scaled", "reflection"}
+    [] c = "SE3.SO3(R)" -> {"nonorth", "scaled", "reflection", "rotation-2x2", "rotation-4x4"}
     [] c \in {"SE2", "SE3"} -> {"nonorth", "scaled", "reflection", "lastrow"}
     [] c \in TwistCls       -> {"diag", "notskew", "bottom"}
     [] c = "UnitQuaternion" -> {"zero"}
@@ -77,7 +80,7 @@ Construct(c, form, ks) ==
   /\ call.op = "none"
   /\ (form = "bare" => Len(ks) = 1)
   /\ (form = "array" => c = "UnitQuaternion" /\ Len(ks) >= 2)
-  /\ (c = "UnitQuaternion(R)" => form = "bare")        \* a list of matrices is not a documented form
+  /\ (c \in {"UnitQuaternion(R)", "SE3.SO3(R)"} => form = "bare")        \* a list of matrices is not a documented form
   /\ call' = [op |-> "construct", cls |-> c, form |-> form, kinds |-> ks]
   /\ expect' = Outcome(c, ks)
 
@@ -86,7 +89,7 @@ Construct(c, form, ks) ==
 OtherCls == Cls \cup {"Quaternion", "Plucker"}
 ConstructFromObject(c, o, form, n) ==        \* n: number of values the supplied object holds
   /\ call.op = "none"
-  /\ c # o /\ c # "UnitQuaternion(R)" /\ o # "UnitQuaternion(R)"
+  /\ c # o /\ {c, o} \cap {"UnitQuaternion(R)", "SE3.SO3(R)"} = {}
   /\ form \in {"bare", "list"}
   /\ call' = [op |-> "construct-from-object", cls |-> c, other |-> o, form |-> form, len |-> n]
   /\ expect' = "reject-or-member"
@@ -96,7 +99,7 @@ ConstructFromObject(c, o, form, n) ==        \* n: number of values the supplied
 Mutators == {"append", "insert", "extend", "setitem"}
 MutateWithObject(c, o, m, n) ==
   /\ call.op = "none"
-  /\ c # o /\ c # "UnitQuaternion(R)" /\ o # "UnitQuaternion(R)"
+  /\ c # o /\ {c, o} \cap {"UnitQuaternion(R)", "SE3.SO3(R)"} = {}
   /\ call' = [op |-> "mutate-with-object", cls |-> c, other |-> o, mutator |-> m, len |-> n]
   /\ expect' = "reject-or-member"
 
